@@ -62,6 +62,28 @@ Theorem C09_write_false_invisible : forall default_bank segs name,
 Proof. exact write_false_invisible. Qed.
 Print Assumptions C09_write_false_invisible.
 
+(* The whole output stage refines the spec: for EVERY bank list and segment list (non-empty segments), the files
+   computed by the model of merge_segments / write_banks / build_command are exactly the files the pointwise spec
+   demands (same names, same order, same bytes, prg header included), and whenever the spec rejects the configuration
+   the model does not produce files. *)
+Theorem C09_build_output_refines_spec : forall configured banks segs, banks <> [] -> Forall nonempty segs ->
+  match spec_build configured banks segs with
+  | Some files => build_output configured banks segs = BuildFiles files
+  | None => rejected (build_output configured banks segs)
+  end.
+Proof. exact build_output_refines. Qed.
+Print Assumptions C09_build_output_refines_spec.
+
+(* ... and from the DECLARED configuration, through CodegenContext::finalize (default bank, the single-segment
+   convenience, segments left without a bank). *)
+Theorem C09_build_project_refines_spec : forall default_name configured banks segs, Forall nonempty segs ->
+  match spec_project default_name configured banks segs with
+  | Some files => build_project default_name configured banks segs = ProjectBuilt (BuildFiles files)
+  | None => project_rejected (build_project default_name configured banks segs)
+  end.
+Proof. exact build_project_refines. Qed.
+Print Assumptions C09_build_project_refines_spec.
+
 (* non-vacuity: two overlapping segments, the later one wins, gap filled *)
 Example C09_example :
   let segs := [mkSeg 4100 [1;2;3;4]%N None true; mkSeg 4096 [9;9;9;9;9;9]%N None true; mkSeg 4110 [7]%N None true] in
